@@ -474,6 +474,9 @@ func c07Classes(c c07Case, exp c07Expect, o c07Obs) []string {
 	if exp.Fam[0].Admit && exp.Fam[1].Admit {
 		cl["admitted:dual-stack"] = true
 	}
+	if len(o.Shares) > 0 && c.Conf.Peer != "" && c.Conf.Peer != "200" {
+		cl["shared:peer-misbehaves:"+c.Conf.Peer] = true
+	}
 	if len(o.Shares) == 1 {
 		cl["shared"] = true
 		if exp.Fam[0].SharePass && exp.Fam[1].SharePass {
@@ -559,6 +562,7 @@ func c07Require(rec *vh.Rec, grid bool) {
 		rec.Require("secret-length:below-minimum", "secret-length:at-or-above-minimum")
 	}
 	if !grid {
+		rec.Require("shared:peer-misbehaves:500", "shared:peer-misbehaves:read-then-close", "shared:peer-misbehaves:garbage")
 		rec.Require("domain:quirk", "rejected:incomplete-payload", "delivered-twice", "admitted:registrar-phantom", "shared:dual-stack-twin-suppressed")
 		for _, n := range c07TwinNames {
 			rec.Require("necessity:" + n)
